@@ -407,6 +407,8 @@ p_tree_avl_remove (PTreeBaseNode	**root_node,
 	PTreeBaseNode	*child_node;
 	PTreeAVLNode	*child_parent;
 	pint		cmp_result;
+	ppointer	tmp_key;
+	ppointer	tmp_value;
 
 	cur_node = *root_node;
 
@@ -430,8 +432,16 @@ p_tree_avl_remove (PTreeBaseNode	**root_node,
 		while (prev_node->right != NULL)
 			prev_node = prev_node->right;
 
+		/* Exchange the pairs: the pair being removed must leave the tree
+		 * (and be passed to the destroy notifiers) with the unlinked node */
+		tmp_key   = cur_node->key;
+		tmp_value = cur_node->value;
+
 		cur_node->key   = prev_node->key;
 		cur_node->value = prev_node->value;
+
+		prev_node->key   = tmp_key;
+		prev_node->value = tmp_value;
 
 		/* Mark node for removal */
 		cur_node = prev_node;
